@@ -126,8 +126,17 @@ def _rand_key(rng, shape, write, grow_p=0.25, forms=("int", "int", "int", "int",
             else:
                 key.append(int(rng.integers(0, I)))
         elif f == "slice":
-            c = int(rng.integers(0, 5))
-            if c == 0:
+            c = int(rng.integers(0, 6))
+            if c == 5:
+                # strided slices (spans that are / are not a multiple of the step, reversed ones for reads)
+                step = int(rng.choice([2, 2, 3, -1, -2])) if not write else int(rng.choice([2, 2, 3]))
+                if step > 0:
+                    a = None if rng.random() < 0.5 else int(rng.integers(0, I))
+                    b = None if rng.random() < 0.5 else int(rng.integers((a or 0) + 1, I + 1))
+                else:
+                    a, b = None, None
+                key.append({"s": [a, b, step]})
+            elif c == 0:
                 key.append({"s": [None, None, None]})
             elif c == 1:
                 a = int(rng.integers(0, I))
@@ -223,6 +232,10 @@ def _rand_op(rng, shape, model):
         if grow and rng.random() < 0.3:
             idx.append(int(rng.integers(0, 2)))
         return {"k": "set_full", "idx": idx, "v": float(rng.choice(VALS))}
+    if c < 0.72 and rng.random() < 0.08:
+        # the receiver itself as the right-hand side: onto its own extent, or shifted by one along some modes (which grows those modes)
+        offs = [int(rng.integers(0, 2)) if rng.random() < 0.5 else 0 for _ in shape]
+        return {"k": "set_region", "key": [{"s": [o, o + I, None]} if rng.random() < 0.7 or o else {"s": [None, None, None]} for o, I in zip(offs, shape)], "rhs": "self"}
     if c < 0.72:
         key = _rand_key(rng, shape, True)
         if rng.random() < 0.15:
@@ -295,6 +308,8 @@ def _apply_model(model, op):
     elif k == "set_region":
         kk = [_key_elem(e) for e in op["key"]]
         rshape = None
+        if op["rhs"] == "self":
+            op = dict(op, rhs="array", v=model.M.copy().tolist())
         if op["rhs"] == "array":
             rshape = np.asarray(op["v"]).shape
         model.grow(_need(kk, rshape, model.shape))
@@ -504,6 +519,9 @@ def _exec_op(ctx, op, T, S, model):
         if op["rhs"] == "scalar":
             for holder, X, cls in hs:
                 _do(ctx, f"{cls}.__setitem__", holder, lambda X=X: X.__setitem__(key, op["v"]))
+        elif op["rhs"] == "self":
+            _do(ctx, "tensor.__setitem__", "dense", lambda: T.__setitem__(key, T))
+            _do(ctx, "sptensor.__setitem__", "sparse", lambda: S.__setitem__(key, S))
         else:
             V = np.array(op["v"], dtype=float)
             dr = V.copy() if op.get("holder_rhs") == "ndarray" else ttb.tensor(V.copy())
@@ -599,6 +617,16 @@ def _valid(op, model):
                     return False
                 if k == "get_region" and e >= I:
                     return False
+        if k == "set_region" and op["rhs"] == "self":
+            if len(key) != N or model.M is None or model.M.size == 0:
+                return False
+            for e, I in zip(key, shape):
+                if not (isinstance(e, dict) and "s" in e and e["s"][2] is None):
+                    return False
+                a, b, _ = e["s"]
+                if not ((a is None and b is None) or (a is not None and b is not None and b - a == I and a >= 0)):
+                    return False
+            return True
         if k == "set_region" and op["rhs"] == "array":
             kk = [_key_elem(e) for e in key]
             m2 = Model(model.M)
